@@ -264,6 +264,7 @@ class Batch:
     def __init__(self, driver: Driver):
         self.driver = driver
         self.items: list = []
+        self.failed = None
 
     def add(self, req: dict, callback):
         self.items.append((req, callback))
@@ -276,7 +277,14 @@ class Batch:
         flat = []
         for req, _ in self.items:
             flat.extend(req if isinstance(req, list) else [req])
-        answers = self.driver.ask(flat) if flat else []
+        try:
+            answers = self.driver.ask(flat) if flat else []
+        except LeanError as e:
+            # the model is unavailable (e.g. a regenerated obligation no longer checks and the library does not build):
+            # what the property oracle found on the real code is kept; the comparison with the model is skipped
+            self.failed = str(e)[:500]
+            self.items = []
+            return
         i = 0
         items, self.items = self.items, []
         for req, cb in items:
